@@ -283,4 +283,66 @@ if want("extxyz"):
             except Exception as exc:
                 check(g, f"loads {order}, load number {k + 1}", False, repr(exc))
 
+# ---------------------------------------------------------------------------------------------- Molden [GTO] blocks
+if want("molden-gto"):
+    g = group("molden-gto", "Molden [GTO] section written by an independent writer: one block per atom headed by the atom's sequence number; blocks in ascending, descending and shuffled order and with an atom that has no functions; the orbitals loaded must be the functions of space the file denotes (independent evaluator)")
+    sys.path.insert(0, os.path.dirname(os.path.abspath(__file__)))
+    import overlap_oracle as oo
+    from iodata.basis import MolecularBasis, Shell
+    from iodata.formats.molden import CONVENTIONS as MCONV
+    from iodata.overlap import compute_overlap
+
+    def molden_values(obasis, atcoords, coeffs, pts):
+        rows = []
+        for sh in obasis.shells:
+            r = pts - np.asarray(atcoords)[sh.icenter]
+            r2 = (r**2).sum(axis=1)
+            l = int(sh.angmoms[0])
+            for a_, b_, c_ in oo.cart_powers(l):
+                v = np.zeros(len(pts))
+                for al, ck in zip(sh.exponents, sh.coeffs[:, 0]):
+                    v += ck * oo.norm_cart(al, (a_, b_, c_)) * r[:, 0] ** a_ * r[:, 1] ** b_ * r[:, 2] ** c_ * np.exp(-al * r2)
+                rows.append(v)
+        return coeffs.T @ np.array(rows)
+
+    for case, order in enumerate([[0, 1, 2], [2, 1, 0], [1, 2, 0], [2, 0], [1, 2]]):
+        coords = np.array([[0.0, 0.0, 0.0], [1.6, 0.3, -0.2], [-0.4, 1.9, 0.7]]) + rng.normal(size=(3, 3)) * 0.1
+        atn = [8, 1, 6]
+        per_atom = {0: [(0, [5.0, 1.2], [0.4, 0.7]), (1, [0.9], [1.0])], 1: [(0, [0.8], [1.0])], 2: [(0, [3.1, 0.6], [0.5, 0.6]), (1, [1.4], [1.0]), (0, [0.25], [1.0])]}
+        shells = [Shell(ia, [l], ["c"], np.array(ex), np.array(co).reshape(-1, 1)) for ia in order for (l, ex, co) in per_atom[ia]]
+        ob = MolecularBasis(shells, MCONV, "L2")
+        S = compute_overlap(ob, coords)
+        w, v = np.linalg.eigh(S)
+        q, _ = np.linalg.qr(rng.normal(size=(ob.nbasis, ob.nbasis)))
+        C = (v / np.sqrt(w)) @ v.T @ q
+        lines = ["[Molden Format]", "[Atoms] AU"]
+        for i, (z, xyz) in enumerate(zip(atn, coords)):
+            lines.append(f"{SYM[z]:2s} {i + 1:3d} {z:3d}  {xyz[0]:20.12f} {xyz[1]:20.12f} {xyz[2]:20.12f}")
+        lines.append("[GTO]")
+        for ia in order:
+            lines.append(f"{ia + 1:3d} 0")
+            for l, ex, co in per_atom[ia]:
+                lines.append(f" {'sp'[l]}  {len(ex):3d} 1.00")
+                lines += [f"{e_:20.10f} {c_:20.10f}" for e_, c_ in zip(ex, co)]
+            lines.append("")
+        lines.append("[MO]")
+        for j in range(ob.nbasis):
+            lines += [f" Ene= {-1.0 + 0.1 * j:.10f}", " Spin= Alpha", f" Occup= {2.0 if j < 2 else 0.0:.6f}"]
+            lines += [f"{i + 1:4d} {C[i, j]:.14e}" for i in range(ob.nbasis)]
+        fn = os.path.join(tmp, "order.molden")
+        open(fn, "w").write("\n".join(lines) + "\n")
+        pts = rng.uniform(-2, 3, size=(8, 3))
+        try:
+            import warnings
+
+            with warnings.catch_warnings():
+                warnings.simplefilter("ignore")
+                d = load_one(fn, fmt="molden")
+            got = molden_values(d.obasis, d.atcoords, d.mo.coeffs, pts)
+            want_v = molden_values(ob, coords, C, pts)
+            centers = [int(sh.icenter) for sh in d.obasis.shells]
+            check(g, f"[GTO] blocks for atoms {[o + 1 for o in order]}", np.abs(got - want_v).max() < 1e-6 and centers == [ia for ia in order for _ in per_atom[ia]], f"shell centres loaded: {centers}; max deviation of orbital values {np.abs(got - want_v).max():.3e}")
+        except Exception as exc:
+            check(g, f"[GTO] blocks for atoms {[o + 1 for o in order]}", False, repr(exc))
+
 print(json.dumps({"groups": groups}))
